@@ -152,6 +152,58 @@ reg(
     "DESIGN.md section 4, C07",
 )
 
+reg("C03", "exploration",
+    "Exhaustive product lattices of real single-point calls under a deterministic per-invocation iteration horizon: (A) every ordered batch "
+    "(size <= 2 quick, <= 3 thorough) of {CH4, H2O, OH-, NH4+, H2CO, CH3(UHF)} x {fixed mixing 0/0.3/0.7, adaptive, Pulay, Krylov/KSA} x "
+    "{diagonalisation, SP2 tolerances} x scf_eps 1e-4..1e-10; (B) fixed batches x the same solver axes x 3 start densities (default guess, "
+    "neighbouring-geometry density, that density plus a symmetric non-idempotent 1e-2 matrix) x iteration cap {1,2,3,5,1000} answered by the "
+    "harness through scf_loop.MAX_ITER; (C) MNDO/PM3/PM6_SP on a sub-lattice. For every molecule reported converged the returned density is "
+    "checked in numpy (symmetry, no weight on padding slots, trace and charge sum, idempotency, |P - D(F(P))|, commutator, Eelec functional) "
+    "against K x threshold bounds; a horizon trip is 'does not terminate'; notconverged is accepted and counted.",
+    "Trusted: the package's hcore()/fock() as the definition of F(P), numpy.linalg.eigh. Bounds: 6-molecule alphabet, batch size <= 3, AM1 on "
+    "the full lattice, s/p methods only, iteration (not wall-clock) bounds. Constants >= 10x the largest ratio measured on the healthy tree "
+    "(closed shell |P-D| 13, commutator 277; UHF 106/1582 from symmetric starts); trace bound derived from the element test of the stopping rule.",
+    "explicit enumeration of configuration lattices and of environment answers (iteration cap, start density, batch mates) on the real SCF code "
+    "with an algebraic residual oracle on every returned density; sys.settrace iteration horizon for termination",
+    "DESIGN.md section 4, C03")
+reg("C04", "model_checking",
+    "Breadth-first enumeration of every sequence of solver configurations (10: {fixed 0, fixed 0.3, adaptive, Pulay} x {diagonalisation, SP2 1e-7}, "
+    "Krylov/KSA, UHF-singlet adaptive) along a path of neighbouring geometries (0.02 A steps) of 6 closed-shell molecules, the density of each solve "
+    "carried into the next: depth 2 (quick) / 3 (thorough) from the cold tight reference at g0; from every non-final state also the same solves from a "
+    "perturbed carried density, cold solves at every geometry and the scf_eps axis 1e-4..1e-10. States = (molecule, geometry index, provenance "
+    "sequence), transitions = solves on the real driver; every solve's (Etot, force, q, e_mo) is compared with the cold tight-diagonalisation "
+    "reference of its geometry within K_obs x max(scf_eps, sp2_tol)/(1-a).",
+    "Trusted: the tight adaptive/diagonalisation solve (scf_eps 1e-11) as reference path. Bounds: depth 3, 6 molecules, AM1, single-molecule calls, "
+    "histories not merged. K_E 10, K_q 500, K_e_mo 2000, K_F 5000 (measured max ratios 1.2 / 52 / 215 / 387).",
+    "stateless breadth-first search over operation sequences on the live API (densities carried as arrays between forked workers), differential "
+    "oracle against a reference path",
+    "DESIGN.md section 4, C04")
+reg("C18", "exploration",
+    "Negative lattice: base requests x every single-fault mutant per documented precondition (each adjacent transposition unsorting a species row in "
+    "any row of a padded batch; each odd-electron charge under RHF in any row; (charge, multiplicity) in {-2..2} x {1..5} under UHF on HF, BeH2, H2O, "
+    "CH3 against the occupation rule; UHF x {Pulay, KSA, SP2, CIS, RPA, PM6}; heterogeneous batch x {RPA, analytical excited-state gradient, "
+    "all-forces}; active state > 0 without excited-state settings; 14 malformed remove_com values through MD.run x engines): an exception must be "
+    "raised before any result attribute of the molecule (or MD output file) is written, and the unmutated base of each family must be accepted. "
+    "Positive lattice: every element pair of the MNDO/AM1/PM3/PM6_SP tables as saturated H_nA-BH_m at |AB| in {0.5..30} A plus the covalent distance, "
+    "hydride ions of every element at charge +-1, +-2, every occupation-valid (charge, mult), valid remove_com modes: under the iteration horizon the "
+    "call returns and Etot, Hf, force, q, e_mo are finite for every molecule not flagged notconverged.",
+    "Trusted: Python exception semantics, torch.isfinite. Loud refusals of valid-but-extreme requests are recorded, not judged (none occur on the "
+    "current tree); requests outside the documented preconditions are executed and recorded. Bounds: elements H..Cl, s/p methods (+ the PM6/UHF "
+    "guard), 0.5-30 A, iteration cap 150 answered for |AB| >= 5 A (restricted SCF of a dissociated bond never converges).",
+    "explicit enumeration of single-fault mutants of valid requests and of an element-pair x distance x charge lattice on the real constructors, "
+    "driver and MD.run; oracle = raised-before-results / finite-or-flagged",
+    "DESIGN.md section 4, C18")
+reg("C16","model_checking",
+ "States (molecule or batch, geometry index, provenance of the Davidson guess) are explored exhaustively: (S-lat) molecule {H2O,NH3,CH4,H2CO,HCN,C2H2} x n_states (every 1..nov for nov<=16, else {1,2,3,5,8,nov}) x tolerance {1e-4,1e-6,1e-8} x {CIS,RPA} x orbital windows x homogeneous/mixed batches x scripted available-memory answers (subspace collapse, chunked sigma build); (S-seq) all depth-3 sequences over 3 nearby geometries x {fresh, amplitudes reused through the best-guess rotation, reused raw, scripted orthonormal guesses (permuted, mixed, higher states + 5 % admixture, bare unit vectors, AO-basis transition densities)}. Every solve of the real driver is compared with a dense numpy reference built from that solve's own orbitals: package sigma build on all unit vectors == dense A and B (1e-10), r >= n returned energies == lowest r dense eigenvalues within 10 x tol, ascending, positive, amplitudes (symplectically) orthonormal 1e-8, residual <= tol, independence of n/history/guess/batch against a canonical spectrum, w_RPA <= w_CIS state by state; root-cause diagnostics (invariant closure of the guess space, stalled-subspace branch, collapses) are recorded per violation.",
+ "Trusted: molecule.w and the one-centre parameters (the model's integrals, C06); the reference AO tensor is validated in every solve against the package Fock matrix (F-Hcore=G[P], 1e-10). Available memory is a scripted environment answer. Orbital windows cutting a (near-)degenerate shell are ill-posed and excluded from cross-run comparison. Bounds: AM1, nov<=25, depth 3. Known findings: supplied/reused guesses can lock onto a higher state or a symmetry sector (inherent to root-targeted Davidson); a stalled subspace accepts residuals up to 1.3 x tolerance.",
+ "exhaustive lattice + BFS over solve sequences on the real CIS/RPA drivers, each execution replayed against a dense reference model (conformance)",
+ "DESIGN.md section 4, C16")
+reg("C17","model_checking",
+ "(a) the real _propagate_electronic over nstates 2..8 x coupling family (const, ramp, alternating, arriving/leaving peak 1/10/100 per fs) x gap {1e-4,1e-2,1,5} eV x dt {0.05,0.1,0.5} x substeps {auto,4,8,16,32} x 3 initial amplitudes against an independent DOP853 integration: amplitude error falls >= 10x per doubling in the resolved regime (measured >= 13.4), norm error <= 2n x amplitude error, automatic sub-steps <= 1e-4 where they resolve the step (measured 3.7e-5), batch == singles with fixed sub-steps, hop integral; (b1) breadth-first search to depth 3 over 6 events per trajectory (no hop, hop up accepted, hop up frustrated, hop down, trivial crossing of the active state, trivial crossing elsewhere) for 2 trajectories x 3 states through the REAL _do_integrator_step/_detect_crossings/_after_electronic_update/_attempt_hop/_rescale_velocity_along_nac with scripted torch.rand and synthetic electronic-structure providers; every transition is compared with a reference hop machine (relabelling = permutation of amplitudes and active index, target selection, dv || M^-1 d, dKE = -dE to 1e-12, smaller root, frustrated hop bitwise untouched, hold-off, decoherence) and every batch row with its single-trajectory run (bitwise); (b2) exhaustive lattice on the real velocity rescaling (dE sign/size x velocity family incl. v.d = 0 exactly x NAC family x masses x orientation x batch row); (b3) exhaustive lattice on the real _attempt_hop over the draw alphabet {0,.25,.5,.75,1-1e-12}; (c) the repository's Tully models: analytic gradients vs finite differences, TullyFSSH batches of 1..3 with mixed active states and scripted draw schedules: norm, energy jump at hops, force of the own active state, reported potential, batch row == single run.",
+ "Synthetic: state energies, CIS amplitudes, couplings, NAC vectors, per-state forces (the cut of the repository's DummyFSSH tests; nothing of the hop logic is stubbed). Hold-off bookkeeping taken from the implementation. Pairwise norm-error ratios are not an oracle (leading term changes sign; measured 0.7-94). Automatic sub-steps ignore the energy spread and are capped at 80: unresolved points (norm error up to 9e-3) are excluded and reported.",
+ "explicit-state BFS over scripted environment answers on the real hop/step code against a reference machine + exhaustive lattices against an independent reference integration",
+ "DESIGN.md section 4, C17")
+
 ALL = [f"C{i:02d}" for i in range(1, 21)]
 
 
